@@ -168,12 +168,16 @@ func hdrIDs(b []byte) (cmd uint32, req bool, hbh, e2e uint32) {
 
 func (p *peerScript) hook(c *memConn, b []byte) (int, error) {
 	p.mu.Lock()
-	p.writes++
-	if p.wf != 0 && p.writes == p.wf {
-		p.mu.Unlock()
-		return 0, errScriptedWrite
-	}
 	cmd, req, hbh, e2e := hdrIDs(b)
+	// wf=k: the k-th transmission of the CER fails (other writes - an answer to a peer's
+	// watchdog request during the handshake - do not count)
+	if cmd == 257 && req {
+		p.writes++
+		if p.wf != 0 && p.writes == p.wf {
+			p.mu.Unlock()
+			return 0, errScriptedWrite
+		}
+	}
 	var react string
 	switch {
 	case cmd == 257 && req:
